@@ -297,14 +297,14 @@ def jobs(tier):
         sm = {"slotmode": "round"} if coarse else {}
         for auto in (False, True):
             for a in ACTIONS:
-                p = dict(sm, flavour=f, auto=auto, nact=3, slots=1, first=a)
+                p = dict(sm if not auto else {"slotmode": "round"}, flavour=f, auto=auto, nact=3, slots=1, first=a)
                 if q:
                     p["pool"] = QUICK_ACTIONS
                     if ACTIONS.index(a) >= QUICK_ACTIONS:
                         continue
                 out.append({"harness": "smart", "params": p, "label": "%s/%s/3-actions/first=%s" % (f, "auto-b" if auto else "no-predicate", a)})
         # request / un-request / ... : re-request after un-request needs four actions
-        n = 4 if (q or f == "path") else 5
+        n = 4
         for pre in (["request-path", "unrequest"], ["request-id", "unrequest"]):
             out.append({"harness": "smart", "params": {"flavour": f, "auto": False, "nact": n, "slots": 1, "slotmode": "round", "prefix": pre},
                         "label": "%s/no-predicate/%d-actions/prefix=%s" % (f, n, "+".join(pre))})
